@@ -73,6 +73,20 @@ class World:
 
         return seams._fast_state(obj)
 
+    @classmethod
+    def _state_changed(cls, a, b, prefix=""):
+        def is_state(x):
+            return isinstance(x, tuple) and len(x) == 2 and isinstance(x[0], str) and isinstance(x[1], tuple) and all(isinstance(i, tuple) and len(i) == 2 for i in x[1])
+
+        if not (is_state(a) and is_state(b)):
+            return [prefix or "<value>"] if a != b else []
+        da, db = dict(a[1]), dict(b[1])
+        out = []
+        for k in sorted(set(da) & set(db)):
+            if da[k] != db[k]:
+                out += cls._state_changed(da[k], db[k], prefix + k + ".") if (is_state(da[k]) and is_state(db[k])) else [prefix + k]
+        return [x.rstrip(".") for x in out]
+
     def own_obj(self, node_id, label, obj):
         self.owned.append([node_id, label, obj, self._obj_fp(obj), None])
         return obj
@@ -89,10 +103,12 @@ class World:
             else:
                 now = self._obj_fp(arr)
                 if now != fp:
-                    a, b = dict(fp[1]) if isinstance(fp, tuple) else {}, dict(now[1]) if isinstance(now, tuple) else {}
-                    changed = sorted(k for k in set(a) | set(b) if a.get(k) != b.get(k))
+                    # only attributes that were there when the object was handed over and now hold another value: one that APPEARS
+                    # later is a lazy cache of the library's own (legal), as for nodes
+                    changed = self._state_changed(fp, now)
                     rec[3] = now  # reported once
-                    bad.append((node_id, label, "attributes as handed over", "changed: " + ",".join(changed), rec))
+                    if changed:
+                        bad.append((node_id, label, "attributes as handed over", "changed: " + ",".join(changed), rec))
                 continue
             if now != fp:
                 bad.append((node_id, label, fp, now, rec))
